@@ -252,4 +252,52 @@ def Chain.apply : Chain → Str → Str
   | .jsStr => jsStrEscape
   | .urlTail => fun s => htmlEscape (urlNormalize s)
 
+/-! ## web/snippets.go: formatResults — the slice expressions that can panic
+
+For every line match, `formatResults` cuts the line into `Pre`, `Match` (and for the last fragment `Post`) pieces:
+
+    lastEnd := 0
+    for i, f := range m.LineFragments {
+        l := f.LineOffset; e := l + f.MatchLength
+        Pre: line[lastEnd:l], Match: line[l:e]; if last { Post: m.Line[e:] }
+        lastEnd = e
+    }
+
+and for a file of a sub-repository it evaluates `fMatch.FileName[len(f.SubRepositoryPath):]`.
+`line` is modelled by its length (capacity = length); offsets are Go `int`s. -/
+
+structure Frag where
+  off : Int
+  len : Int
+  deriving Repr, DecidableEq
+
+/-- one displayed fragment: byte ranges `[preLo, lo)`, `[lo, hi)` and, for the last one, `[hi, postHi)` -/
+structure Piece where
+  preLo : Nat
+  lo : Nat
+  hi : Nat
+  postHi : Nat     -- = hi when there is no Post
+  deriving Repr, DecidableEq
+
+/-- Go `s[a:b]` on a slice of length = capacity `n`: in range iff `0 ≤ a ≤ b ≤ n` -/
+def sliceOk (n : Nat) (a b : Int) : Bool := decide (0 ≤ a) && decide (a ≤ b) && decide (b ≤ (n : Int))
+
+def cutFrags (n : Nat) : Int → List Frag → Option (List Piece)
+  | _, [] => some []
+  | lastEnd, f :: rest =>
+    let l := f.off
+    let e := f.off + f.len
+    if sliceOk n lastEnd l && sliceOk n l e then
+      match cutFrags n e rest with
+      | none => none
+      | some ps =>
+        some (⟨lastEnd.toNat, l.toNat, e.toNat, if rest.isEmpty then n else e.toNat⟩ :: ps)
+    else none
+
+/-- the pieces of one line match, `none` = run-time panic (slice bounds out of range) -/
+def formatLine (n : Nat) (frags : List Frag) : Option (List Piece) := cutFrags n 0 frags
+
+/-- `fMatch.FileName[len(f.SubRepositoryPath):]` -/
+def subPathOk (nameLen subLen : Nat) : Bool := decide (subLen ≤ nameLen)
+
 end ZoektModel.C36
